@@ -99,10 +99,10 @@ func (e *Exec) checkWritable(fr *Frame, st *State, in ssa.Instruction, base Val,
 	if !fr.top || !e.ownership() || base.K != KBytes || base.Ident == "" {
 		return
 	}
-	if strings.HasPrefix(base.Ident, "heap:") {
-		// the buffer was stored in a field before this call: whoever received it earlier
-		// (a caller, a queue) may still be using it
-		e.obligeNoAssume(st, fmt.Sprintf("handover:%s-stored:%d", what, e.ord[in]), "handover", e.fc.Owns, "false",
+	if sd := e.storedTerm(base.Ident, 0); sd != "false" {
+		// the buffer (on some path) was stored in a field before this call: whoever
+		// received it earlier (a caller, a queue) may still be using it
+		e.obligeNoAssume(st, fmt.Sprintf("handover:%s-stored:%d", what, e.ord[in]), "handover", e.fc.Owns, sNot(sd),
 			"a []byte that was stored in a field before this call is not written in place ("+what+" may reuse its backing array while earlier recipients still hold it)", in.Pos())
 		return
 	}
@@ -147,3 +147,19 @@ func (e *Exec) checkCarried(fr *Frame, st *State, li *loopInfo, from *ssa.BasicB
 }
 
 var _ = types.Typ
+
+// storedTerm: the identity is (on the selected path) a buffer that was held in a
+// struct field before the call.
+func (e *Exec) storedTerm(id string, depth int) string {
+	if id == "" || depth > 8 {
+		return "false"
+	}
+	if strings.HasPrefix(id, "heap:") {
+		return "true"
+	}
+	t := "false"
+	for _, a := range e.aliasOf[id] {
+		t = sOr(t, sAnd(a.cond, e.storedTerm(a.ident, depth+1)))
+	}
+	return t
+}
